@@ -39,7 +39,7 @@ ENTRY = {
 
 HEADER = '''from __future__ import annotations
 from dataclasses import dataclass, field
-from typing import Generic, TypeVar, List, Dict, Optional
+from typing import Generic, TypeVar, List, Dict, Optional, Self
 from mashumaro import DataClassDictMixin, pass_through
 from mashumaro.mixins.json import DataClassJSONMixin
 from mashumaro.mixins.orjson import DataClassORJSONMixin
@@ -149,7 +149,7 @@ def gen_family(rng, max_classes=5, focus=None) -> dict:
             if focus == "kwargs":
                 extra = rng.choice([["orjson"], ["orjson"], ["msgpack"], ["msgpack", "orjson"], ["toml"], ["json"], []])
             mix = extra or mix
-            dsup = (not generic) and rng.random() < (0.5 if focus == "kwargs" else 0.35)
+            dsup = rng.random() < (0.65 if focus == "kwargs" else 0.35)
         parent = None
         if not generic and i > 0 and rng.random() < 0.2 and focus != "spec":
             cands = [j for j in range(i) if not classes[j]["generic"] and classes[j]["kind"] == kind
@@ -166,6 +166,8 @@ def gen_family(rng, max_classes=5, focus=None) -> dict:
                 p = rng.random()
                 if focus == "spec" and i > 0 and k == 0:
                     j = 0
+                elif focus == "kwargs" and p < 0.45:
+                    j = i           # self references: the "class being compiled" shortcuts of the builders
                 elif p < 0.7 and i > 0:
                     j = rng.randrange(0, i)
                 elif p < 0.85:
@@ -173,7 +175,12 @@ def gen_family(rng, max_classes=5, focus=None) -> dict:
                 else:
                     j = rng.randrange(0, n)
                 wrap = rng.choice(["plain", "opt", "list", "dict", "opt", "list"]) if j < i else rng.choice(["opt", "list", "dict"])
-                fields.append([f"f{i}_{k}", ["dc", j, wrap, None]])
+                if j == i and not generic and rng.random() < 0.5:
+                    # typing.Self instead of the class name: no name lookup, so the class is NOT postponed; in a
+                    # subclass the position denotes the subclass
+                    fields.append([f"f{i}_{k}", ["dc", j, wrap, None, "Self"]])
+                else:
+                    fields.append([f"f{i}_{k}", ["dc", j, wrap, None]])
             elif focus == "spec" and i == 0 and k < 2:
                 fields.append([f"f{i}_{k}", [["int", "optint"][k]]])     # what Config.dialect D2 / D1 of an owner would change
             else:
@@ -249,13 +256,18 @@ def random_order(fam: dict, rng) -> list[int]:
     return order
 
 
-def all_fields(fam, i):
-    """fields incl. inherited ones, in dataclass order"""
+def all_fields(fam, i, target=None):
+    """fields incl. inherited ones, in dataclass order; a typing.Self position denotes the class asked for"""
+    if target is None:
+        target = i
     c = fam["classes"][i]
     out = []
     if c["parent"] is not None:
-        out.extend(all_fields(fam, c["parent"]))
-    out.extend(c["fields"])
+        out.extend(all_fields(fam, c["parent"], target))
+    for fname, t in c["fields"]:
+        if len(t) > 4 and t[4] == "Self":
+            t = [t[0], target] + list(t[2:])
+        out.append([fname, t])
     return out
 
 
@@ -280,8 +292,8 @@ def type_src(fam, t) -> str:
         return "datetime.date"
     if t[0] == "ghost":
         return "Optional[Ghost]"
-    _, j, wrap, targ = t
-    base = fam["classes"][j]["name"]
+    j, wrap, targ = t[1], t[2], t[3]
+    base = "Self" if len(t) > 4 and t[4] == "Self" else fam["classes"][j]["name"]
     if targ:
         base += "[" + ", ".join(TARGS[a][0] for a in targ) + "]"
     return {"plain": base, "opt": f"Optional[{base}]", "list": f"List[{base}]", "dict": f"Dict[str, {base}]"}[wrap]
@@ -394,7 +406,7 @@ def gen_value(fam, i, rng, depth=0, targ=None):
             continue
         else:
             k += 1
-            _, j, wrap, ta = t
+            j, wrap, ta = t[1], t[2], t[3]
             deep = depth >= 3
             if wrap == "plain":
                 subs = [gen_value(fam, j, rng, depth + 1, ta)]
